@@ -13,6 +13,7 @@ import (
 	"encoding/json"
 	"fmt"
 	"io"
+	"sort"
 	"strings"
 	"time"
 
@@ -97,10 +98,12 @@ func (r *fragReader) Read(p []byte) (int, error) {
 
 func writerLengths() []int {
 	K, M := 1<<10, 1<<20
-	ls := []int{0, 1, 64*K - 1, 64 * K, 64*K + 1, 256*K - 1, 256 * K, 256*K + 1, M - 1, M, M + 1, 2*M + 3}
+	// M+256K(+1): the first length at which the hard cap is reached (first chunk 256 KiB + 1 MiB)
+	ls := []int{0, 1, 64*K - 1, 64 * K, 64*K + 1, 256*K - 1, 256 * K, 256*K + 1, M - 1, M, M + 1, M + 256*K, M + 256*K + 1, 2*M + 3}
 	if vk.Thorough() {
-		ls = append(ls, 2, 63, 64, 65, 32*K - 1, 32 * K, 32*K + 1, 320*K + 1, M + 256*K - 1, M + 256*K, M + 256*K + 1, 2*M - 1, 2 * M, 2*M + 1, 2*M + 256*K + 1, 3*M + 1, 4*M + 5)
+		ls = append(ls, 2, 63, 64, 65, 32*K-1, 32*K, 32*K+1, 320*K+1, M+256*K-1, 2*M-1, 2*M, 2*M+1, 2*M+256*K, 2*M+256*K+1, 3*M+1, 4*M+5)
 	}
+	sort.Ints(ls)
 	return ls
 }
 
@@ -128,7 +131,15 @@ func frags(L int) []frag {
 	}
 	calls := (L + bufioSize - 1) / bufioSize // data-carrying Read calls of the undisturbed schedule
 	for k := 1; k <= calls; k++ {
+		// quick: the first 8 and the last 3 calls (every k in between shifts the
+		// later reads by the same amount); thorough: every k
+		if !vk.Thorough() && k > 8 && k < calls-2 {
+			continue
+		}
 		for _, a := range shortAmts() {
+			if a == "zero" && k > 2 && k < calls {
+				continue // an empty read shifts nothing: first two and last call only
+			}
 			for _, e := range []bool{false, true} {
 				out = append(out, frag{Mode: "short", K: k, Amt: a, EOFTogether: e})
 			}
@@ -217,9 +228,14 @@ func runWrite(data []byte, f frag) (fail *failure, layout string) {
 	if fr.Size() != int64(len(data)) {
 		return &failure{"NewFileReader", "readback-size", fmt.Sprintf("Size()=%d, input has %d bytes", fr.Size(), len(data))}, layout
 	}
-	got, err := io.ReadAll(fr)
-	if err != nil {
-		return &failure{"NewFileReader", "readback-error", "ReadAll: " + err.Error()}, layout
+	got := make([]byte, len(data)+1)
+	n, err := io.ReadFull(fr, got)
+	got = got[:n]
+	if err == nil {
+		return &failure{"NewFileReader", "readback-mismatch", fmt.Sprintf("read back more than the %d input bytes", len(data))}, layout
+	}
+	if err != io.ErrUnexpectedEOF && !(err == io.EOF && n == 0) {
+		return &failure{"NewFileReader", "readback-error", fmt.Sprintf("reading %d+1 bytes: n=%d err=%v (want the content, then EOF)", len(data), n, err)}, layout
 	}
 	if !bytes.Equal(got, data) {
 		return &failure{"NewFileReader", "readback-mismatch", "read back " + diffDesc(got, data)}, layout
@@ -306,9 +322,11 @@ func runWriterScenario(res *vk.Result) {
 		kinds = dataKindsThorough
 	}
 	ls := writerLengths()
-	sc.Bound = fmt.Sprintf("lengths %v x data kinds %v (engineered kinds verified with the real rollsum; duplicates per length dropped) x fragmentations {whole, 1-byte reads (small lengths), data+EOF together, one short read (%v) at every k-th Read call of the undisturbed 32 KiB schedule} x {EOF alone, EOF with last byte}", ls, kinds, shortAmts())
+	sc.Bound = fmt.Sprintf("lengths %v x data kinds %v (engineered kinds verified with the real rollsum; duplicates per length dropped) x fragmentations {whole, 1-byte reads (small lengths), data+EOF together, one short read (%v) at the k-th Read call of the undisturbed 32 KiB schedule for %s} x {EOF alone, EOF with last byte}", ls, kinds, shortAmts(), map[bool]string{false: "k<=8 and the last 3 calls", true: "every k"}[vk.Thorough()])
 	dl := vk.Deadline()
 	k := 0
+	si, sn := vk.Shard()
+	isMine := func(k int) bool { return k%sn == si }
 	layouts := map[string]bool{}
 	for _, L := range ls {
 		seen := map[string]bool{}
@@ -317,7 +335,7 @@ func runWriterScenario(res *vk.Result) {
 			// does this shard own any case of (L, kind)?
 			mine := false
 			for i := range fs {
-				if vk.Mine(k + i) {
+				if isMine(k + i) {
 					mine = true
 					break
 				}
@@ -338,7 +356,7 @@ func runWriterScenario(res *vk.Result) {
 				continue
 			}
 			for i, f := range fs {
-				if !vk.Mine(base + i) {
+				if !isMine(base + i) {
 					continue
 				}
 				if time.Now().After(dl) {
@@ -350,7 +368,7 @@ func runWriterScenario(res *vk.Result) {
 				sc.Executions++
 				sc.Transitions += 3 // three clauses compared per execution
 				if fail == nil {
-					key := fmt.Sprintf("%d|%s", L, layout)
+					key := fmt.Sprintf("%d|%s|%s", L, kind, layout)
 					if !layouts[key] {
 						layouts[key] = true
 						sc.States++
